@@ -32,10 +32,11 @@ static std::string canon6(const std::array<uint16_t, 8>& a) {
 
 // ---------------------------------------------------------------- channels
 struct Chan { const char* name; bool special; bool setter; };
-enum { P0, P1, P2, P3, S0, S1, S2, I0, I1, I2, E0, N_CHAN };
+enum { P0, P1, P2, P3, S0, S1, S2, I0, I1, I2, E0, S3, S4, N_CHAN };
 static const Chan CH[N_CHAN] = {{"parse-http", true, false},  {"parse-wss-cred-port", true, false}, {"parse-file", true, false}, {"parse-nonspecial", false, false},
                                 {"set_host", true, true},     {"set_hostname", true, true},        {"set_host-nonspecial", false, true},
-                                {"inherit-relative", true, false}, {"scheme-relative", true, false}, {"inherit-file", true, false}, {"percent-encoded", true, false}};
+                                {"inherit-relative", true, false}, {"scheme-relative", true, false}, {"inherit-file", true, false}, {"percent-encoded", true, false},
+                                {"set_host-same-host", true, true}, {"set_hostname-same-host", true, true}};
 static uint64_t n_ok = 0, n_fail = 0, n_refcmp = 0, n_kind[3] = {0, 0, 0}, n_noncanonical = 0, n_dns = 0;
 
 static std::string pct_some(vh::Rng& r, const std::string& h) {
@@ -47,7 +48,7 @@ static std::string pct_some(vh::Rng& r, const std::string& h) {
 
 struct Out { bool ok = false; obs::Snap s; int ret = -1; bool unchanged = true; };
 template <class T>
-static Out run_channel(int ch, const std::string& H, std::string* input_out, std::string* base_out) {
+static Out run_channel(int ch, const std::string& H, std::string* input_out, std::string* base_out, const std::string& canon = "") {
   Out o; std::string in, base;
   auto P = [&](const std::string& i, const std::string* b) {
     vh::Exact xi(i);
@@ -63,12 +64,13 @@ static Out run_channel(int ch, const std::string& H, std::string* input_out, std
     case I0: base = "http://" + H + "/a/b"; in = "../c?d"; P(in, &base); break;
     case I1: base = "https://other.example/"; in = "//" + H + "/z"; P(in, &base); break;
     case I2: base = "file://" + H + "/dir/f"; in = "x"; P(in, &base); break;
-    case S0: case S1: case S2: {
-      in = ch == S2 ? "foo://h/a" : "https://example.org:81/a?b#c";
+    case S0: case S1: case S2: case S3: case S4: {
+      // S3/S4: the URL already has this very host (canonical spelling); the setter receives another spelling of it
+      in = ch == S2 ? "foo://h/a" : (ch == S3 || ch == S4) ? (canon.empty() ? "https://example.org:81/a?b#c" : (canon[0] == '[' ? "foo://" : "wss://") + canon + ":81/a?b#c") : "https://example.org:81/a?b#c";
       auto u = ada::parse<T>(in); if (!u) break;
       obs::Snap before = obs::snap(*u);
       vh::Exact v(H);
-      o.ret = ch == S1 ? u->set_hostname(v.sv()) : u->set_host(v.sv());
+      o.ret = (ch == S1 || ch == S4) ? u->set_hostname(v.sv()) : u->set_host(v.sv());
       o.s = obs::snap(*u); o.ok = o.ret == 1; o.unchanged = o.s == before;
       break; }
   }
@@ -101,8 +103,8 @@ static void check(const Case& c) {
   std::string want_host; int want_kind = -1; bool want_fail = exp == "FAIL", ref_only = exp == "REF";
   if (exp.size() > 1 && exp[0] == '=') { size_t bar = exp.rfind('|'); want_host = exp.substr(1, bar - 1); want_kind = atoi(exp.c_str() + bar + 1); }
   std::string in, base;
-  Out oa = run_channel<ada::url_aggregator>(ch, H, &in, &base);
-  Out ou = run_channel<ada::url>(ch, H, nullptr, nullptr);
+  Out oa = run_channel<ada::url_aggregator>(ch, H, &in, &base, want_host);
+  Out ou = run_channel<ada::url>(ch, H, nullptr, nullptr, want_host);
   std::string ctx = std::string(CH[ch].name) + " host=" + H + " input=" + in + (base.empty() ? "" : " base=" + base);
   for (int t = 0; t < 2; t++) {
     const Out& o = t ? ou : oa; const char* tn = t ? "url" : "aggregator";
